@@ -36,7 +36,7 @@ NodeInit(id, pol, codec, hrel, hpred, cfg) ==
      probe |-> ProbeInit, upd |-> <<>>, cus |-> <<>>,
      cfg |-> cfg, bufcap |-> cfg.maxpkt]
 
-EmptyTape == [sends |-> <<>>, order |-> <<>>, pind |-> <<>>, auto |-> FALSE, pref |-> <<>>, hv |-> 0]
+EmptyTape == [sends |-> <<>>, order |-> <<>>, pind |-> <<>>, auto |-> FALSE, pref |-> <<>>, hv |-> 0, eres |-> ""]
 
 (***************************************************************************)
 (* Model checking does not enumerate tapes.  With tape.auto the choices    *)
@@ -55,7 +55,7 @@ Ranked(S, pref) ==
 
 Ctx(st, tape, hl, dbg) ==
     [st |-> st, out |-> <<>>, sends |-> tape.sends, ti |-> 1, order |-> tape.order,
-     pind |-> tape.pind, auto |-> tape.auto, pref |-> tape.pref, hvAuto |-> tape.hv,
+     pind |-> tape.pind, auto |-> tape.auto, pref |-> tape.pref, hvAuto |-> tape.hv, eres |-> tape.eres,
      ok |-> TRUE, err |-> "", panic |-> FALSE, r |-> FALSE, hv |-> 0,
      ins |-> <<>>, hl |-> hl, hi |-> 1, hcalls |-> <<>>, dbg |-> dbg]
 
@@ -473,7 +473,13 @@ AnnounceToDown(c, k) ==
     IN IF m > 0 /\ WouldPanic(c) THEN [c EXCEPT !.panic = TRUE]
        ELSE LET c1 == SendEach([c EXCEPT !.ok = @ /\ valid], dsts, msg) IN
             IF ~Live(c1) THEN c1
-            ELSE IF c.auto \/ m >= n - Cardinality(own) THEN c1
+            ELSE IF c.auto THEN c1
+            \* fewer Announces than members drawn: either the rest of the draw were own-address records
+            \* (skipped) or the next one could not be encoded; which of the two legal outcomes happened
+            \* is read off the observed result (tape.eres)
+            ELSE IF m < n /\ c.eres = "Err:Encode" /\ \E e \in others \ Range(dsts) : ~HeaderFits(c1.st, e, msg)
+            THEN Fail(c1, "Err:Encode")
+            ELSE IF m >= n - Cardinality(own) THEN c1
             ELSE IF \E e \in others \ Range(dsts) : ~HeaderFits(c1.st, e, msg) THEN Fail(c1, "Err:Encode")
             ELSE [c1 EXCEPT !.ok = FALSE]
 
